@@ -12,7 +12,7 @@ def main(tier, only=None):
                        "(all 5^k contents for every k, symbolic)" % nbuf]
         U = nbuf + 2
         to = 900 if tier == "quick" else 2400
-        d = ("NBUF=%d" % nbuf,)
+        d = ("NBUF=%d" % nbuf, "__NO_CTYPE")
         hs = [e1.H("h_splice_count", "splice/newline-count-and-survivors", unwind=U, defines=d, timeout=to),
               e1.H("h_splice_unspliced", "splice/line/no-splice-before", unwind=U, defines=d, timeout=to),
               e1.H("h_splice_lag", "splice/line/lags-by-splices", unwind=U, defines=d, timeout=to),
@@ -21,12 +21,13 @@ def main(tier, only=None):
     if "line" in fams:
         chk.bounds += ["#line: one `#line n` / `# n` directive on physical line p, __LINE__ probed on lines "
                        "q0 < p < q1 < q2 <= 2^20, 0 <= n <= 2^30, all symbolic"]
-        chk.assumptions += ["line.c stubs: convert_pp_tokens (PP_NUM -> NUM keeping the value), "
+        chk.assumptions += ["compiled with -D__NO_CTYPE (cbmc's exact ctype models instead of glibc's table macros)",
+                            "line.c stubs: convert_pp_tokens (PP_NUM -> NUM keeping the value), "
                             "format+tokenize inside new_num_token (one number token), hashmap_* (association "
                             "list), equal/skip/consume (same semantics), error_tok (asserted unreachable)"]
         hs = []
         for form, fk in ((0, "hash-line"), (1, "gnu-marker")):
-            d = ("FORM=%d" % form,)
+            d = ("FORM=%d" % form, "__NO_CTYPE")
             hs += [e1.H("h_line_before", "line/%s/before-directive" % fk, unwind=14, defines=d, timeout=600),
                    e1.H("h_line_relative", "line/%s/advances-with-physical" % fk, unwind=14, defines=d, timeout=600),
                    e1.H("h_line_eof", "line/%s/eof-token-adjusted" % fk, unwind=14, defines=d, timeout=600),
